@@ -23,4 +23,7 @@ ObservationFails(ev) ==
   \cup (IF ~ev.seed_fixed \/ ev.lazy_eq_eager THEN {} ELSE {"lazy_differs_from_eager"})
   \cup (IF ~ev.seed_fixed \/ ev.chunking_indep THEN {} ELSE {"depends_on_chunking"})
   \cup (IF ev.distinct_members THEN {} ELSE {"distinct_measurements_share_their_noise"})
+  \* within ONE block (the eager result): no two members identical and every pair of members uncorrelated (|z| <= 6); members are the
+  \* measurements of the ensemble, the repeated samples and the entries of a dose series
+  \cup (IF ev.eager_members_independent THEN {} ELSE {"members_of_one_block_share_their_noise"})
 =============================================================================
